@@ -122,12 +122,15 @@ func VerifH_C06_fingerprint_no_ct() {
 	c06Stubs(false, true, true)
 	n := vr.Int("next", 0, 2)
 	var plain, withCT []pkix.Extension
+	// each slot takes zero, one or two CT extensions (adjacent ones, repeats and both orders included)
 	insert := func() {
-		switch vr.Pick(vr.Int("ct", 0, 2)) {
-		case 1:
-			withCT = append(withCT, pkix.Extension{Id: oidExtensionCTPrecertificatePoison, Critical: true, Value: []byte{5, 0}})
-		case 2:
-			withCT = append(withCT, pkix.Extension{Id: oidExtensionSignedCertificateTimestampList, Value: vr.Bytes("sctlist", 1)})
+		for k := 0; k < 2; k++ {
+			switch vr.Pick(vr.Int("ct", 0, 2)) {
+			case 1:
+				withCT = append(withCT, pkix.Extension{Id: oidExtensionCTPrecertificatePoison, Critical: true, Value: []byte{5, 0}})
+			case 2:
+				withCT = append(withCT, pkix.Extension{Id: oidExtensionSignedCertificateTimestampList, Value: vr.Bytes("sctlist", 1)})
+			}
 		}
 	}
 	for i := 0; i < n; i++ {
